@@ -9,6 +9,9 @@ VERIF = os.path.dirname(os.path.dirname(os.path.abspath(__file__)))
 REPO = os.environ.get('VERIF_REPO', '/repo')
 MODULES = ['utils', 'mean', 'comparison', 'proportion', 'quantile', 'interval', 'confidence', 'stats', 'error']
 NCPU = os.cpu_count() or 4
+# developer overrides (never set by the registered commands): where evidence / replays of a side run go
+EVID_DIR = os.environ.get('VERIF_EVIDENCE_DIR', os.path.join(VERIF, 'evidence'))
+REPLAY_DIR = os.environ.get('VERIF_REPLAY_DIR', os.path.join(VERIF, 'replays'))
 
 ENV = dict(os.environ)
 ENV.update({'CARGO_NET_OFFLINE': 'true', 'CARGO_TERM_COLOR': 'never', 'RUST_BACKTRACE': '0'})
@@ -389,8 +392,8 @@ class Ctx:
         cov.update({k: v for k, v in self.extra.items() if k not in ('explanation',)})
         ev = {'property_id': self.pid, 'tier': self.tier, 'seed': self.seed, 'level': self.level, 'coverage': cov,
               'assumptions': self.assumptions, 'wall_s': round(time.time() - self.t0, 2), 'violations': len(self.violations)}
-        os.makedirs(os.path.join(VERIF, 'evidence'), exist_ok=True)
-        with open(os.path.join(VERIF, 'evidence', self.pid + '.json'), 'w') as fh:
+        os.makedirs(EVID_DIR, exist_ok=True)
+        with open(os.path.join(EVID_DIR, self.pid + '.json'), 'w') as fh:
             json.dump(ev, fh, indent=1)
 
     def finish(self):
@@ -414,7 +417,7 @@ class Ctx:
 
 # ------------------------------------------------------------------------------ generic K step
 def save_replay(ctx, harness_short, rep, message):
-    d = os.path.join(VERIF, 'replays', ctx.pid)
+    d = os.path.join(REPLAY_DIR, ctx.pid)
     os.makedirs(d, exist_ok=True)
     path = os.path.join(d, harness_short + '.rs')
     with open(path, 'w') as fh:
